@@ -27,7 +27,8 @@ def _spec(module):
         return [{
             'units': {'cJSON.c': 'core_min.c', 'cJSON_Utils.c': 'utils_bad.c'},
             'rules': [tab.tab8, tab.tab9, tab.tab10, tab.tab11, tab.tab12, lst.lst1, out.out5, out.out6, out.out7,
-                      utilsx.tab18, utilsx.ord1, tab.tab20, utilsx.mrg, utilsx.esc1, utilsx.pfx1],
+                      utilsx.tab18, utilsx.ord1, tab.tab20, utilsx.mrg, utilsx.esc1, utilsx.pfx1, utilsx.gen1,
+                      lambda units, R: utilsx.dig1(units, R, unit_names=('cJSON_Utils.c',))],
         }]
     if module == 'parse':
         from . import bnd, bnd3, parse, tab
@@ -67,10 +68,10 @@ def _spec(module):
             'rules': [parse.tab4, parse.tab5a, codeset.tab6, parse.tab7, parse.c02_structure, parse.c03_structure, parse.tab21],
         }]
     if module == 'print':
-        from . import outbuf, outsym
+        from . import outbuf, outsym, numcls
         return [{
             'units': {'cJSON.c': 'print_bad.c', 'cJSON_Utils.c': 'utils_min.c'},
-            'rules': [outbuf.out1, outbuf.out4, outbuf.out8, outbuf.tab2_print, outbuf.tab5bc, outbuf.tab15, outbuf.tab16, outsym.out23],
+            'rules': [outbuf.out1, outbuf.out4, outbuf.out8, outbuf.tab2_print, outbuf.tab5bc, outbuf.tab15, outbuf.tab16, outsym.out23, numcls.num1],
         }]
     raise AnalysisBroken('no fixture spec for module %s' % module)
 
